@@ -321,3 +321,12 @@ Lemma step_collision_callback : forall cfg st e f,
 Proof.
   intros cfg st e f Ht Hf Hc. rewrite (step_collision _ _ _ Hc), (collision_callback _ _ _ _ Ht Hf). reflexivity.
 Qed.
+
+(* The handler answers from (state.nick, the numeric) alone and leaves state.nick as it is:
+   a numeric that does not name the refused nickname gives it nothing to count with.  Before
+   001 two such numerics get the same proposal. *)
+Lemma collision_unnamed_repeats :
+  session (mkPnCfg (bs "me") true None) pn_init (bs "me")
+          [IEvent (mkEvent s_433 None [bs "*"]); IEvent (mkEvent s_433 None [bs "*"])] =
+    Ok [[cmd_nick (bs "me_")]; [cmd_nick (bs "me_")]].
+Proof. vm_compute. reflexivity. Qed.
